@@ -185,9 +185,15 @@ def hexq(s):
     return binascii.hexlify(s).decode()
 
 
-def run_driver(drv, cmds, workdir, tag="cmds", timeout=3600):
+def run_driver(drv, cmds, workdir, tag="cmds", timeout=3600, max_hangs=None):
     """cmds: list of tab-joined command lines.  Returns list of JSON results in order
-    (a timed-out / crashed command yields {'id':..., 'status':'timeout'|'crash'})."""
+    (a timed-out / crashed command yields {'id':..., 'status':'timeout'|'crash'}).
+    A tree that breaks progress must not hang the harness: after MAX_HANGS timeouts (default 15,
+    VERIF_MAX_HANGS) the remaining commands are not run and get the status 'skipped-after-hangs';
+    the timeouts seen up to there are in the results and are what the caller reports."""
+    if max_hangs is None:
+        max_hangs = int(os.environ.get("VERIF_MAX_HANGS", "15"))
+    hangs = 0
     os.makedirs(workdir, exist_ok=True)
     path = os.path.join(workdir, tag + ".txt")
     with open(path, "w") as f:
@@ -215,6 +221,12 @@ def run_driver(drv, cmds, workdir, tag="cmds", timeout=3600):
         if pr.returncode in (3, 4) and n > 0:
             # the last record is the timeout / terminate marker of command start+n-1
             start += n
+            if got[-1].get("status") == "timeout":
+                hangs += 1
+                if hangs >= max_hangs:
+                    for c in cmds[start:]:
+                        results.append({"id": c.split("\t")[1], "status": "skipped-after-hangs"})
+                    break
             continue
         # crash: the command after the last complete record
         cid = cmds[start + n].split("\t")[1] if start + n < len(cmds) else "?"
